@@ -124,6 +124,30 @@ def check_circle(c):
     nan = region.sky_within(np.array([float("nan"), ra0]), np.array([dec0, float("nan")]), degin=True)
     if bool(nan[0]) or bool(nan[1]):
         res.bad("nan-inside", "a position with a NaN coordinate is reported inside")
+    # whole-degree positions handed over as integers (python ints, integer arrays) with degin=True
+    ipts = {(int(round(ra0)) % 360, max(-90, min(90, int(round(dec0)))))}
+    for a, b in zip(ras, decs):
+        ipts.add((int(round(a)) % 360, max(-90, min(90, int(round(b))))))
+    ijudged = []
+    for ia, ib in sorted(ipts):
+        sep = float(refs.vsep(ra0, dec0, float(ia), float(ib)))
+        if sep <= r * (1 - 1e-9):
+            ijudged.append((ia, ib, True, sep))
+        elif sep >= r + 3 * resol * (1 + 1e-9):
+            ijudged.append((ia, ib, False, sep))
+    if ijudged:
+        ia_ = np.array([p[0] for p in ijudged], dtype=np.int64)
+        ib_ = np.array([p[1] for p in ijudged], dtype=np.int64)
+        gvec = [bool(v) for v in region.sky_within(ia_, ib_, degin=True)]
+        gsca = [bool(np.ravel(region.sky_within(p[0], p[1], degin=True))[0]) for p in ijudged[:4]]
+        for k, (ia, ib, want, sep) in enumerate(ijudged):
+            for how, g in (("integer array", gvec[k]),) + ((("python int", gsca[k]),) if k < len(gsca) else ()):
+                if g != want:
+                    res.bad("integer-degrees", "depth %d circle (%r, %r) r=%r: position (%d, %d) given as %s with degin=True, "
+                            "%.6g deg from the centre, is reported %s" % (d, ra0, dec0, r, ia, ib, how, sep,
+                                                                          "inside" if g else "outside"), how=how)
+                    break
+        res.label("integer-degree-positions")
     area = region.get_area()
     sq = (180 / math.pi) ** 2
     lo = 2 * math.pi * (1 - math.cos(math.radians(r))) * sq
